@@ -16,7 +16,8 @@ CLAIMS = {
              'surface as MatrixError, lenient/step handlers are exact and bounded; that Matrix.solve stores only lhs[~J]=constrain[~J] / lhs[J]+=...; that backend '
              'solvers are reached only through the gate. These are necessary conditions of "certified solution or raise", quantified over all inputs because they '
              'are path properties of the source; convergence, conditioning and independence of the initial guess are NOT decided. Also decided: sub-matrix/preconditioner caches are keyed on everything they depend on, Topology.project never overwrites prescribed constraint values, and in every iteration-method class the residual norm handed to System.solve is that of a residual assembled at the state handed out with it (typestate over enumerated paths; linear-model norms only behind the is_linear refusal).'
-             ' Also decided (round 3): System.deconstruct stores the VALUES of a float constraint into the argument (R14.10); no solver front end writes into an array the caller passed, including what deconstruct hands back (R14.9 = R03.7).',
+             ' Also decided (round 3): System.deconstruct stores the VALUES of a float constraint into the argument (R14.10); no solver front end writes into an array the caller passed, including what deconstruct hands back (R14.9 = R03.7).'
+             ' Also decided: every name loaded in solver.py resolves (R14.11).',
         note='Trusts: CPython ast; name-based identification of residual norms as the operands compared with tol/atol; IEEE semantics of NaN comparisons; '
              'the three gates are the only functions that hand an iterate to the user (confirmed by reading; R14.5 guards the linear side).',
         design='DESIGN.md section 2, C14'),
@@ -27,7 +28,8 @@ CLAIMS = {
              'backends agree on assemble(data,rowptr,colidx,ncols) and on the export contract and that every consumer unpacks it in that order, constructor arities, the derived operators '
              'and caches of the base class, and the one-based index discipline of the MKL backend (which cannot be executed in this sandbox). Necessary conditions of "faithful to the data / '
              'ambiguous input rejected"; numerical agreement of products, transposes and sub-matrices is NOT decided. Also decided: NumpyMatrix.__matmul__ contracts the first operand axis for operands of any dimension, and COO row compression computes index differences in a signed type so that unsorted or out-of-range rows are rejected for every integer dtype; assemble_block_csr establishes the per-block obligations (row pointers from 0 to len(values), column indices inside the block) before it re-bases and splices the blocks.'
-             ' Also decided (round 3): compress_indices (CSR row pointers) never returns on counts/end points of the row indices alone (R15.11).',
+             ' Also decided (round 3): compress_indices (CSR row pointers) never returns on counts/end points of the row indices alone (R15.11).'
+             ' Also decided: every name loaded in the matrix package and numeric.py resolves (R15.12; matrix.fromsparse is a known finding).',
         note='Trusts: CPython ast; the idiom table for guards (all(e), numpy.all(e), e.all(); shifted-slice and numpy.diff adjacent comparisons); role names of index arrays '
              '(colidx/indices/cols vs rowptr/indptr). Unclassifiable constructs in the anchor give ANALYSIS-ERROR.',
         design='DESIGN.md section 2, C15'),
@@ -37,7 +39,8 @@ CLAIMS = {
              'to the yield of _argument_to_array the key type, membership, shape and dtype were verified by ValueError guards (or the replacement is built from the key); run-time ingestion emits '
              'a casting-checked conversion to the declared kind + a shape test; the raw specification is consumed only through the parser; announced argument tables are computed from the parsed pairs. Monomial._derivative (the derivative of factored polynomials) scatters through the row-major flat index of the argument\'s multi-index (symbolic execution for 1..4 axes). These are necessary for "all spellings '
              'equivalent, wrong shape/dtype rejected"; that replace/linearize/factor commute with evaluation numerically is NOT decided.'
-             ' Also decided (round 3): factor() prunes coefficients only where they are exactly zero (R13.8).',
+             ' Also decided (round 3): factor() prunes coefficients only where they are exactly zero (R13.8).'
+             ' Also decided: every name loaded in function.py resolves (R13.9; one dead class is a known finding).',
         note='Trusts: CPython ast/symtable; the parameter and local names of _argument_to_array as read today (the rule re-derives them from the signature and the yield).',
         design='DESIGN.md section 2, C13'),
     'C17': dict(
@@ -45,7 +48,8 @@ CLAIMS = {
         text='Decides the encoding discipline of nutils_hash and every __nutils_hash__/hashlib user: no hash()/id()/unsorted dict or set iteration feeds a hasher; along every path the feeds of a hasher '
              'form a prefix-free byte encoding with the type tag first; each type branch of nutils_hash feeds the components that distinguish values of that type; hand-written solver hashes cover all '
              'constructor state with unique tags; Immutable/Singleton/DataClass/arraydata canonicalise and intern through one key; the disk-cache key and generated constant names use the full hash. '
-             'An encoding that is not injective makes two values share a hash for certain, so each clause is necessary; SHA-1 collision resistance and user-defined hashes are NOT decided.',
+             'An encoding that is not injective makes two values share a hash for certain, so each clause is necessary; SHA-1 collision resistance and user-defined hashes are NOT decided.'
+             ' Also decided: every name loaded in types.py resolves (R17.9).',
         note='Trusts: CPython ast; the feed typing table (digest = nutils_hash()/.digest(), delimited = literal NUL terminator, raw, varnum); SHA-1 as a random oracle for fixed-length digests. '
              'Known findings F6, F9a, F9b are listed in known_findings.json.',
         design='DESIGN.md section 2, C17'),
@@ -56,7 +60,8 @@ CLAIMS = {
              'load and the rewrite; never a rewrite or recomputation after a hit; computation inside disable() with a recorded log that is stored and replayed; exceptions propagate without a store; the '
              'entry name depends on module, qualname, version and every canonical argument; recursion bookkeeping (monotone exhausted flag, trimmed history, resume index, stop marker, layout agreement). '
              'This is the shape that crash tolerance and mutual exclusion need for every history; what the OS guarantees for flock and partial writes and equality of unpickled values are NOT decided. Also decided: every iteration-method class that can be passed to the memoised System.solve is hashable and its hash covers its constructor state.'
-             ' Also decided (round 3): the end of a recursion is StopIteration, never a value it may yield (R18.9); class keywords (version) are handed on by the metaclass (R18.10); handles opened outside a with statement take part in the lock typestate.',
+             ' Also decided (round 3): the end of a recursion is StopIteration, never a value it may yield (R18.9); class keywords (version) are handed on by the metaclass (R18.10); handles opened outside a with statement take part in the lock typestate.'
+             ' Also decided: every name loaded in cache.py resolves (R18.11).',
         note='Trusts: CPython ast; that a truncated pickle raises EOFError or UnpicklingError (CPython behaviour); flock semantics.',
         design='DESIGN.md section 2, C18'),
     'C20': dict(
@@ -65,7 +70,8 @@ CLAIMS = {
              'analysis dictates for that operation, that handlers pass only unwrapped operands on, that every operator dunder binds the same-named table entry (reflected ones through _reverse), that string '
              'division/formatting and construction are dimension-checked and the unchecked parser is not reachable otherwise, that the Dimension algebra adds/subtracts/scales exponents with canonical interning, '
              'that unit strings are parsed with the documented precedence and name resolution, and that both prefix tables equal the SI prefixes. Soundness of the dimension of every supported composition '
-             'follows from these per-operation rules; numerical conversion factors and the format round trip are NOT decided.',
+             'follows from these per-operation rules; numerical conversion factors and the format round trip are NOT decided.'
+             ' Also decided: every name loaded in SI.py and unit.py resolves (R20.10).',
         note='Trusts: CPython ast; oracles/dimension_rules.json (classification of each operation by dimensional analysis; SI prefixes).',
         design='DESIGN.md section 2, C20'),
     'C16': dict(
@@ -75,7 +81,8 @@ CLAIMS = {
              'one failed, and _wait is True only for exit status 0; every statement the code generator emits goes through _block_for over all its expressions, which nests `with lock` for each shared array, and '
              'statement constructors are used elsewhere only at eight listed sites; shared allocation, lock registration and pre-fork lock creation are paired and ctxrange is emitted for outermost loops only; '
              'arrays crossing a parallel region are shared and every claimed index of _locate gets its slot assigned. These are necessary for exactly-once execution, mutual exclusion, visibility and failure '
-             'propagation; numerical equality, real schedules and the OS primitives are NOT decided.',
+             'propagation; numerical equality, real schedules and the OS primitives are NOT decided.'
+             ' Also decided: every name loaded in parallel.py resolves (R16.7).',
         note='Trusts: CPython ast; os.fork/_exit/waitpid and multiprocessing.Lock semantics; completeness of _pyast Expression.variables (checked under C02/R02.4).',
         design='DESIGN.md section 2, C16'),
     'C19': dict(
@@ -83,7 +90,8 @@ CLAIMS = {
         text='Decides the rejection discipline and table agreement of both expression languages: in the v2 parser every raise is the module\'s ExpressionSyntaxError and every int()/float() of user text is guarded; '
              'on every enumerated path to the semantic actions divide/power/add/trace/get_element/scope the documented rejections were tested; the bracket table, array operations and default functions are the documented '
              'ones; in v1 the internal _IntermediateError cannot escape any entry point and every opcode tuple that is constructed has a reader branch of compatible arity calling the function it names. These are '
-             'necessary for "violations are rejected with the syntax error and never silently evaluated to something else"; that an accepted string evaluates to its index-notation reading is NOT decided.',
+             'necessary for "violations are rejected with the syntax error and never silently evaluated to something else"; that an accepted string evaluates to its index-notation reading is NOT decided.'
+             ' Also decided: every name loaded in expression_v1.py and expression_v2.py resolves (R19.9; one unreachable statement is a known finding).',
         note='Trusts: CPython ast/symtable; the documented grammar in the module docstrings as the meaning of the tables; name-based call resolution inside expression_v1.',
         design='DESIGN.md section 2, C19'),
     'C01': dict(
@@ -92,7 +100,8 @@ CLAIMS = {
              '_compile_with_out, ...) agrees in arity with the declaration, no _take/_takediag/_inflate rule hands its own axis parameters to the user-facing helper of the same name (different axis convention), and the '
              'fixed-point driver keeps its shape/dtype assertion, loop detection and memoisation. A mismatch is an exception or a transposed result the moment that pair of node kinds meets at depth >= 3, so the clauses are '
              'necessary; termination and value preservation of the ~20 rules per class are NOT decided - no static argument in reach bounds the values over the unbounded term algebra. Also decided (R01.5): binary swap rules that merge two nodes equate the control operand they keep (Choose.index, Inflate.dofmap, LoopSum.index) and a foreign operand enters a loop body only if it is independent of that loop index (capture avoidance); (R01.6) the iszero/isunit guards of rewrite rules test operands that simplification can decide (a guard over `a % b` is dead because Mod never folds constants). Also: independence tests that license moving parts out of a loop are universal; rewrites fire on certain, not merely possible, equality of run-time lengths; the integer ranges that license integer rewrites are sound for the elementary and index-producing nodes (= C06 R06.4).'
-             ' Also decided (round 3): a Zeros shortcut for a reduction whose neutral element is 1 (product, determinant) decides the empty axis first (R01.9).',
+             ' Also decided (round 3): a Zeros shortcut for a reduction whose neutral element is 1 (product, determinant) decides the empty axis first (R01.9).'
+             ' Also decided: a constant integer vector is rewritten to a Range only under a guard that proves unit steps (R01.10); operand multisets of Multiply/Add are never split by a membership filter (R01.11).',
         note='Trusts: CPython ast; name-based MRO of the class model; the table of public-vs-protocol helper pairs confirmed by reading.',
         design='DESIGN.md section 2, C01'),
     'C04': dict(
@@ -111,7 +120,8 @@ CLAIMS = {
              'expression/statement class of the printer covers all its fields (variables, printing, emptiness, rerun filter) and parenthesises operands; every compiled field is an announced dependency; '
              '_compile_expression arities match. Each clause is necessary for a faithful translation of every DAG shape (a missing zero fill survives the suite because numpy.empty often returns zero pages); that loop '
              'grouping, block ids, Assemble index transposition and the numpy-specific rewrites compute the right values is NOT decided. Further clauses: every Array-typed constructor field is an announced dependency; dependency edges are recorded before the compiled-cache lookup; shared allocation/lock pairing under parallel compilation; loop nodes decline in-place compilation when the destination is defined later; einsum labels and axis positions are kind-typed and never mixed in the fusion rules. A possibly-assign mode is never forwarded to one term while others are accumulated into the same destination without a zero fill; the constant-cache protocol (first_run dispatch) is checked as in C03.'
-             ' Also decided (round 3): the block a statement is emitted into is the body of the innermost `with lock` of the shared arrays it mentions (R02.12 = R16.3).',
+             ' Also decided (round 3): the block a statement is emitted into is the body of the innermost `with lock` of the shared arrays it mentions (R02.12 = R16.3).'
+             ' Also decided: Assemble._compile_with_out transposes and reshapes its operand as NumPy combined (advanced + slice) indexing requires, interpreted for all 340 arrangements of up to four range/advanced indices (R02.13).',
         note='Trusts: CPython ast; the table of owned-storage constructors and view constructors (transpose = full cover, einsum diagonal = partial, slices = loop partition) confirmed by reading.',
         design='DESIGN.md section 2, C02'),
     'C03': dict(
@@ -128,7 +138,8 @@ CLAIMS = {
         text='PARTIAL. Decides the consumers of inferred integer ranges: at every return that drops an InRange/Mod/Minimum/Maximum/NormDim node (or licenses singular_like, index-ness, non-negative exponents, uniform '
              'constants) the path condition implies, by transitive closure with strictness, the inequality that makes the dropped node the identity; the elementary transfer functions equal interval arithmetic; every '
              'compiled field is an announced dependency; isconstant/arguments overrides are conservative. Soundness of the ~25 non-elementary transfer functions, shape/dtype of every node class and function.Array '
-             'metadata are NOT decided (they need evaluation of the functions, concretely or symbolically - another technique family). The table of elementary transfer functions includes the index-producing nodes (SearchSorted, ArgSort, Find, Range); announced argument tables of the function-level wrappers are computed from the parsed replacement pairs. Announced integer ranges are computed only from the dependencies of the value; rewrites that keep the announced shape fire on certain equality of run-time lengths only. The shape announced by each function-level _Wrapper(evaluable.X, ..., shape=S) equals the shape property of X behind the point axes (17 sites, labelled-shape interpretation of both expressions).',
+             'metadata are NOT decided (they need evaluation of the functions, concretely or symbolically - another technique family). The table of elementary transfer functions includes the index-producing nodes (SearchSorted, ArgSort, Find, Range); announced argument tables of the function-level wrappers are computed from the parsed replacement pairs. Announced integer ranges are computed only from the dependencies of the value; rewrites that keep the announced shape fire on certain equality of run-time lengths only. The shape announced by each function-level _Wrapper(evaluable.X, ..., shape=S) equals the shape property of X behind the point axes (17 sites, labelled-shape interpretation of both expressions).'
+             ' Also decided: every name loaded in evaluable.py resolves in an enclosing scope (R06.10, symtable).',
         note='Trusts: CPython ast; the meaning of each dropped node (index in [0,length), a mod b = a, ...); guards written in other algebraic spellings than comparisons of lo/hi terms are not understood and would be reported.',
         design='DESIGN.md section 2, C06'),
     'C05': dict(
@@ -155,7 +166,8 @@ CLAIMS = {
              'the first part\'s element/point counts, that _Integral.lower takes weights, lower args and the reduction from one loop index and contracts weights with the integrand over the point axes, and that every concrete '
              'sample either implements the four accessors or integrates by delegation. Disagreement between siblings makes integrate != sum(w f) for nested samples; Gauss tables, exactness degrees, point containment and '
              'trimmed mosaics are numerical tables and are NOT decided. Also decided: a composite sample never hands its raw element index to a component accessor, and transformed points scale weights by the absolute determinant. TensorPoints enumerates coordinates, weights and triangulation with the same slow factor; getpoints changes the requested degree only under the bezier scheme test.'
-             ' Also decided (round 3): take_elements and _offsets never return on counts alone (R09.8); a per-direction degree tuple is reduced to a total degree by its sum (R09.6).',
+             ' Also decided (round 3): take_elements and _offsets never return on counts alone (R09.8); a per-direction degree tuple is reduced to a total degree by its sum (R09.6).'
+             ' Also decided: every name loaded in sample.py, points.py, pointsseq.py and element.py resolves (R09.9).',
         note='Trusts: CPython ast; the member names of sample._Mul/_Add/_Integral as read today.',
         design='DESIGN.md section 2, C09'),
 }
